@@ -265,11 +265,11 @@ def analyse(case):
                 last_inv = ('zero',)
             elif op == 'ls.size':
                 sh.size(int(tk[1]))
-            elif op == 'ls.row':
+            elif op in ('ls.row', 'ls.rowk'):
                 sh.row(int(tk[1]), [tok_val(t) for t in tk[2:]])
                 if all(sh.rows[i] is not None for i in range(min(sh.n, len(sh.rows)))):
                     pass
-            elif op == 'ls.w':
+            elif op in ('ls.w', 'ls.wk'):
                 sh.W[int(tk[1])] = tok_val(tk[2])
             elif op in ('ls.pre', 'ls.pre1'):
                 e = sh.est
@@ -472,9 +472,9 @@ def _problem(rng, T, e, n, kind):
     return [[_rnd(T, v) for v in r] for r in rows], [_rnd(T, y) for y in ys]
 
 
-def _write_rows(lines, tok, rows, ys, idx):
+def _write_rows(lines, tok, rows, ys, idx, op='ls.row'):
     for i in idx:
-        lines.append('ls.row %d %s %s' % (i, ' '.join(tok(v) for v in rows[i]), tok(ys[i])))
+        lines.append('%s %d %s %s' % (op, i, ' '.join(tok(v) for v in rows[i]), tok(ys[i])))
 
 
 def _precond(rng, T, e, tok):
@@ -567,15 +567,19 @@ def _sequence(rng, T, tier, idx):
         else:
             idx_w = list(range(n))
         rng.shuffle(idx_w) if rng.chance(0.2) else None
-        _write_rows(lines, tok, rows, ys, idx_w)
+        # how the caller writes (seeded change c07f): a new getJ()/getY() per row (`ls.row`), references kept since construction
+        # (`ls.rowk`), or alternating per problem — chosen from the case index, so no random draw is consumed
+        wop = ('ls.row', 'ls.rowk', 'ls.rowk' if p % 2 else 'ls.row')[idx % 3]
+        wwop = 'ls.wk' if idx % 2 else 'ls.w'      # same for the weights (getW() per write / reference kept)
+        _write_rows(lines, tok, rows, ys, idx_w, wop)
         cur_rows, cur_ys = rows, ys
         # stale rows beyond the current size: wild values that must not matter
         if cap > n and rng.chance(0.6):
             for i in [rng.int(n, cap - 1) for _ in range(rng.int(1, 6))]:
                 wild = [_rnd(T, rng.gauss() * rng.choice([1.0, 1e3, 1e6])) for _ in range(e + 1)]
-                lines.append('ls.row %d %s' % (i, ' '.join(tok(v) for v in wild)))
+                lines.append('%s %d %s' % (wop, i, ' '.join(tok(v) for v in wild)))
                 if rng.chance(0.5):
-                    lines.append('ls.w %d %s' % (i, tok(_rnd(T, rng.uniform(0.0, 50.0)))))
+                    lines.append('%s %d %s' % (wwop, i, tok(_rnd(T, rng.uniform(0.0, 50.0)))))
         if rng.chance(0.35):
             lines.append(_precond(rng, T, e, tok))
         use_w = rng.chance(0.4)
@@ -601,11 +605,11 @@ def _sequence(rng, T, tier, idx):
                     if i != j:
                         ws[i], ws[j] = 0.5, 1.5
                 for i in range(n):
-                    lines.append('ls.w %d %s' % (i, tok(_rnd(T, ws[i]))))
+                    lines.append('%s %d %s' % (wwop, i, tok(_rnd(T, ws[i]))))
             else:
                 for i in range(n):
                     if rng.chance(0.8):
-                        lines.append('ls.w %d %s' % (i, tok(_rnd(T, rng.uniform(0.25, 4.0)))))
+                        lines.append('%s %d %s' % (wwop, i, tok(_rnd(T, rng.uniform(0.25, 4.0)))))
         ests = rng.choice([['ls.svd'], ['ls.chol'], ['ls.svd', 'ls.chol'], ['ls.chol', 'ls.svd'], ['ls.svd', 'ls.cov'],
                            ['ls.chol', 'ls.cov', 'ls.svd']])
         for o in ests:
@@ -685,6 +689,94 @@ def _boundary(rng, T, idx):
     return {'name': 'boundary-%s-%d' % (T, idx), 'lines': lines, 'meta': {'T': T, 'e': e, 'boundary': True}}
 
 
+def _weights(rng, T, n):
+    mode = rng.below(3)
+    if mode == 0:
+        return [_rnd(T, 4.0 if i % 3 == 0 else 0.5) for i in range(n)]
+    if mode == 1:
+        return [_rnd(T, rng.uniform(0.25, 4.0)) for _ in range(n)]
+    return [_rnd(T, rng.choice([0.5, 1.0, 2.0, 3.0])) for _ in range(n)]
+
+
+def _inplace(rng, T, idx):
+    """ONE object driven through a history in which the problem changes BEHIND the object's back (seeded change c07f, a
+    'normal equations up to date' flag cleared by setDataSize / the non-const accessors only): estimates of all three kinds on the
+    same data (solve, weighted solve, solve again), rows / right-hand sides / weights rewritten with NO resize in between — through
+    references kept since construction (`ls.rowk`, `ls.wk`) or through new accessor calls (`ls.row`, `ls.w`) —, mixed with
+    resizes (shrink / grow / same size).  Whatever was computed before, each estimate must be the minimiser of the rows as
+    they are NOW (the probe skips estimates on rows that a weighted estimate has scaled in place and nobody rewrote)."""
+    tok = _tok(T)
+    e = rng.choice([1, 2, 3, 3, 4, 5, 6])
+    nmax = rng.choice([8, 12, 24, 40])
+    ctor = rng.below(3)
+    lines = []
+    cap = 0
+    if ctor == 0:
+        lines += ['ls.new %s' % T, 'ls.est %d' % e]
+    elif ctor == 1:
+        cap = rng.int(0, nmax)
+        lines.append('ls.new %s %d %d' % (T, e, cap))
+    else:
+        lines.append('ls.new %s %d' % (T, e))
+    rmode = rng.choice(['ls.rowk', 'ls.rowk', 'ls.rowk', 'mixed', 'ls.row'])
+    wmode = rng.choice(['ls.wk', 'ls.wk', 'mixed', 'ls.w'])
+
+    def rop():
+        return rng.choice(['ls.row', 'ls.rowk']) if rmode == 'mixed' else rmode
+
+    def wop():
+        return rng.choice(['ls.w', 'ls.wk']) if wmode == 'mixed' else wmode
+
+    n = max(e, rng.int(e, nmax))
+    rows = ys = None
+    scaled = False
+    for st in range(rng.int(3, 7)):
+        act = 'resize' if st == 0 else rng.choice(['resize', 'resize', 'rewrite', 'rewrite', 'rewrite', 'rewrite', 'rewriteY', 'partial',
+                                                   'weights', 'none'])
+        kind = rng.choice(['plain', 'plain', 'plain', 'cond'])
+        if act == 'resize':
+            if st > 0:
+                n = rng.choice([n, max(e, n // 2), e, e + 1, rng.int(e, nmax), min(nmax, n + rng.int(1, 6))])
+            lines.append('ls.size %d' % n)
+            cap = max(cap, n)
+            rows, ys = _problem(rng, T, e, n, kind)
+            _write_rows(lines, tok, rows, ys, range(n), rop())
+            scaled = False
+        elif act == 'rewrite':
+            # problem 2 over problem 1: same size, no setDataSize
+            rows, ys = _problem(rng, T, e, n, kind)
+            _write_rows(lines, tok, rows, ys, range(n), rop())
+            scaled = False
+        elif act == 'rewriteY':
+            # same design matrix, new observations
+            _, ys = _problem(rng, T, e, n, 'plain')
+            _write_rows(lines, tok, rows, ys, range(n), rop())
+            scaled = False
+        elif act == 'partial' and not scaled and n >= 2:
+            r2, y2 = _problem(rng, T, e, n, 'plain')
+            sub = sorted(set(rng.below(n) for _ in range(rng.int(1, max(1, n // 2)))))
+            for i in sub:
+                rows[i], ys[i] = r2[i], y2[i]
+            _write_rows(lines, tok, rows, ys, sub, rop())
+        if rng.chance(0.15):
+            lines.append(_precond(rng, T, e, tok))
+        ests = rng.choice([['ls.svd'], ['ls.chol'], ['ls.svd', 'ls.chol'], ['ls.chol', 'ls.svd'], ['ls.chol', 'ls.wls'], ['ls.svd', 'ls.wls'],
+                           ['ls.chol', 'ls.wls'], ['ls.wls'], ['ls.svd', 'ls.wls', 'ls.chol'], ['ls.chol', 'ls.cov', 'ls.wls'],
+                           ['ls.wls', 'ls.svd'], ['ls.chol', 'ls.chol'], ['ls.svd', 'ls.cov', 'ls.svd']])
+        if act == 'weights' or ('ls.wls' in ests and rng.chance(0.85)):
+            ws = _weights(rng, T, n)
+            op = wop()
+            for i in range(n):
+                lines.append('%s %d %s' % (op, i, tok(ws[i])))
+        for o in ests:
+            lines.append(o if o != 'ls.cov' else 'ls.cov ' + tok(_rnd(T, rng.loguniform(1e-2, 10.0))))
+            if o == 'ls.wls':
+                scaled = True
+        if rng.chance(0.2):
+            lines.append('ls.peek %d' % rng.int(0, n - 1))
+    return {'name': 'inplace-%s-%d' % (T, idx), 'lines': lines, 'meta': {'T': T, 'e': e, 'inplace': True}}
+
+
 def _malformed():
     lines = ['ls.size 3', 'ls.new d 3', 'ls.row 0 d0 d0 d0 d0', 'ls.size 2', 'ls.row 2 d0 d0 d0 d0', 'ls.row 0 d0 d0 d0',
              'ls.row 0 s0 s0 s0 s0', 'ls.w 2 d0', 'ls.pre d0', 'ls.est 0', 'ls.est 5', 'ls.row 0 d0 d0 d0 d0', 'ls.peek 7',
@@ -700,7 +792,10 @@ def gen_cases(rng, tier):
         cases.append(_sequence(rng, T, tier, i))
     for i in range(40 if tier == 'quick' else 400):
         cases.append(_boundary(rng, 'd' if rng.chance(0.6) else 'f', i))
-    return cases
+    # after the older families, so that those are generated exactly as before
+    inpl = [_inplace(rng, 'd' if rng.chance(0.6) else 'f', i) for i in range(120 if tier == 'quick' else 1200)]
+    # generated last (same random stream for the older families), run first
+    return cases[:1] + inpl + cases[1:]
 
 
 # ------------------------------------------------------------------ oracle
@@ -738,7 +833,7 @@ def oracle(case, out, stats):
         if op not in ('ls.svd', 'ls.chol', 'ls.wls', 'ls.cov'):
             if op not in ('ls.w', 'ls.peek', 'ls.pre', 'ls.pre1'):
                 pass
-            if op in ('ls.row', 'ls.w', 'ls.size', 'ls.new', 'ls.est', 'ls.pre', 'ls.pre1'):
+            if op in ('ls.row', 'ls.w', 'ls.rowk', 'ls.wk', 'ls.size', 'ls.new', 'ls.est', 'ls.pre', 'ls.pre1'):
                 prev_est = None
             continue
         if info is None:
